@@ -157,6 +157,10 @@ def lisOf (w : World) (c e : Nat) : List Sub := w.subs.filter (fun l => l.c == c
 
 def emit (w : World) (t : Tok) : World := { w with out := t :: w.out }
 
+/-- light centre `GetSubscribeNum(name)`: the size of the name's listener list (0 when there is none);
+`HasSubscribers(name)` is `subNum > 0` -/
+def subNum (w : World) (c e : Nat) : Nat := (lisOf w c e).length
+
 def insertP (x : Nat × Nat) (l : List (Nat × Nat)) : List (Nat × Nat) := if l.contains x then l else x :: l
 def eraseP (x : Nat × Nat) (l : List (Nat × Nat)) : List (Nat × Nat) := l.filter (fun y => !(y == x))
 
